@@ -91,6 +91,12 @@ def history_plan(rng, tier, levels, silent_streak=False, identity_changes=True, 
                 mine.append({"id": opid, "s": s, "op": "get", "oid": rng.choice([r[0] for r in agent["mib"]] or ["1.3.6"])})
             opid += 1
             mine.append({"id": opid, "s": s, "op": "refresh"})
+        if len(mine) == 1 and rng.random() < 0.1 and not silent_streak:
+            # (async runs only) the caller cancels the first refresh from outside - before, between or
+            # after its two exchanges - and tries again: the session must come out as if nothing had happened
+            mine[0]["cancel_ns"] = rng.choice([501, 1_500_001, 3_000_001, 5_000_001])
+            opid += 1
+            mine.append({"id": opid, "s": s, "op": "refresh"})
         n = rng.randint(2, 6 if tier == "quick" else 14)
         if long_run:
             n = long_run
@@ -117,6 +123,9 @@ def history_plan(rng, tier, levels, silent_streak=False, identity_changes=True, 
                 continue
             elif identity_changes:
                 mine.append({"op": "agent", "do": rng.choice(["restart", "jump", "jump"]), "delta_s": rng.choice([1, 149, 151, 1000, 86400, -100, -200]), "time0": rng.choice([0, 0, 5, 70000])})
+                if mine[-1]["do"] == "restart" and rng.random() < 0.3:
+                    # an agent that does not persist snmpEngineBoots: back to 0 (or 1) after the restart
+                    mine[-1]["boots"] = rng.choice([0, 0, 1])
                 continue
             else:
                 op = {"id": opid, "s": s, "op": "get", "oid": rng.choice(oids)}
@@ -139,6 +148,9 @@ def history_plan(rng, tier, levels, silent_streak=False, identity_changes=True, 
             elif r < 0.38:
                 # a perfectly good answer whose header elements use long-form lengths
                 scripts[key] = {"replies": [{"k": "genuine", "rewrite": {"widths": gen.widths(rng, True)}}]}
+            elif r < 0.42:
+                # ... or which announces another msgMaxSize (484..2^31-1 are all legal)
+                scripts[key] = {"replies": [{"k": "genuine", "rewrite": {"max-size": rng.choice([484, 485, 1472, 65507, 65535, 65536, 2**31 - 2, 2**31 - 1])}}]}
         plan_ops.append(mine)
     while any(plan_ops):
         cand = [i for i, m in enumerate(plan_ops) if m]
